@@ -122,3 +122,11 @@ package envelope
 //@   requires w != nil && w.hash != nil
 //@   use cid_sum_sha256
 //@   ensures [C08] spec: result1 == nil ==> result0 == ucanCid(absorbed(w.hash))
+//@
+//@ // ---- C07: the envelope built for a payload model carries exactly that model (bindnode.Wrap + signing: trusted) --------
+//@ ghost func sealedModel(n datamodel.Node) any
+//@ func ToIPLD
+//@   trusted
+//@   requires privKey != nil && token != nil
+//@   ensures result1 == nil ==> result0 != nil && sealedModel(result0) == token
+//@   assigns nothing
